@@ -568,7 +568,17 @@ func c13Run(c *fw.Ctx) {
 }
 
 // the logged-in search logs in with the non-canonical spelling
-var c13Prelude = []int{len(c13Sigma) - 1, 2} // "USER U+tag@x.test", "PASS p"
+var c13Prelude = func() []int {
+	idx := func(l string) int {
+		for i, x := range c13Sigma {
+			if x == l {
+				return i
+			}
+		}
+		panic("VERIF-INFRA c13 alphabet lacks " + l)
+	}
+	return []int{idx("USER U+tag@x.test"), idx("PASS p")}
+}()
 
 func c13Explore(c *fw.Ctx, be string, nm int, loggedIn bool) {
 	// alphabet of this tier: positions → indices into c13Sigma
@@ -596,8 +606,8 @@ func c13Explore(c *fw.Ctx, be string, nm int, loggedIn bool) {
 			alpha = alpha[:0:0]
 			for i, l := range c13Sigma {
 				switch l {
-				case "STAT", "LIST", "UIDL", "RSET", "NOOP", "QUIT", "XY", " ", "DELE 1", "DELE 2", "DELE 99", "RETR 1", "RETR 2",
-					"LIST 1", "UIDL 2", "TOP 1 1", "!deliver", "!extdel 1", "!extdel 2", "RETR 2 !hangup", "LIST !hangup", "QUIT !noread", "!idle", "STLS":
+				case "STAT", "LIST", "UIDL", "RSET", "QUIT", "XY", "DELE 1", "DELE 2", "RETR 2",
+					"LIST 1", "!deliver", "!extdel 1", "!extdel 2", "RETR 2 !hangup", "QUIT !noread", "!idle", "STLS":
 					alpha = append(alpha, i)
 				}
 				if len(l) > 4000 {
